@@ -218,6 +218,89 @@ def model_stage(ck, tg):
     return cells
 
 
+def options_flow(ck):
+    """beyond the property: OptionsFlow.tla (which options govern a nested data class) model-checked, exported and bound to the code by
+    probing every level of every chain of nested classes; divergences are notes"""
+    import os
+    import shutil
+    from utype import Options
+    mc = tlc.run("MC_OptionsFlow", "MC_OptionsFlow.cfg")
+    ck.mc(mc, "MC options flow")
+    if mc.invariant_violated:
+        ck.note("model-level counterexample: OptionsFlow violates %s" % mc.invariant_violated)
+    rf = tlc.run("MC_OptionsFlow", "MC_OptionsFlow_reach.cfg")
+    if rf.invariant_violated != "M_FlagsReach":
+        raise MachineryError("OptionsFlow: 'the caller's flags reach every nested class' should be refuted (the design behind the C12 / C18 findings)")
+    d = tlc.scratch("of-")
+    try:
+        out = os.path.join(d, "cases.ndjson")
+        tlc.run("Export_OptionsFlow", "Export_OptionsFlow.cfg", env={"OUT_CASES": out}, workers=1)
+        cases = [json.loads(l) for l in open(out) if l.strip()]
+    finally:
+        shutil.rmtree(d, ignore_errors=True)
+    if len(cases) != mc.distinct:
+        raise MachineryError("exported universe (%d) is not the one TLC explored (%d)" % (len(cases), mc.distinct))
+    FLAG = {"ne": "no_explicit_cast", "ndl": "no_data_loss"}
+
+    def opts(o):
+        kw = {FLAG[f]: True for f in o["flags"]}
+        if o["override"]:
+            kw["override"] = True
+        return Options(**kw)
+    chains = {}
+
+    def chain(cl):
+        key = json.dumps(cl, sort_keys=True)
+        if key not in chains:
+            ns = {"Options": Options}
+            import utype
+            ns["Schema"] = utype.Schema
+            ns["Optional"] = __import__("typing").Optional
+            src = ""
+            for i in range(len(cl), 0, -1):
+                ns["O%d" % i] = opts(cl[i - 1])
+                nxt = "    nxt: Optional[K%d] = None\n" % (i + 1) if i < len(cl) else ""
+                src += "class K%d(Schema):\n    __options__ = O%d\n    v: int = 0\n%s" % (i, i, nxt)
+            exec(src, ns)
+            chains[key] = ns["K1"]
+        return chains[key]
+
+    def data(n, level, probe):
+        dd = None
+        for i in range(n, 0, -1):
+            cur = {"v": probe if i == level else 1}
+            if dd is not None:
+                cur["nxt"] = dd
+            dd = cur
+        return dd
+    recs = []
+    for ci, c in enumerate(cases):
+        K = chain(c["cls"])
+        ro = opts(c["runtime"])
+        obs = []
+        for level in range(1, len(c["cls"]) + 1):
+            seen = []
+            for flag, probe in (("ne", "3"), ("ndl", 2.5)):
+                try:
+                    K.__from__(data(len(c["cls"]), level, probe), options=ro)
+                except Exception:
+                    seen.append(flag)
+            obs.append(seen)
+        recs.append({"id": "of%d" % ci, "cls": c["cls"], "runtime": c["runtime"], "obs": obs})
+    res = tlc.judge("Trace_OptionsFlow", "Trace_OptionsFlow.cfg", recs, workers=4)
+    ck.mc(res, "Trace options flow")
+    if res.distinct != len(recs):
+        raise MachineryError("trace acceptance (options flow): TLC visited %d states, expected %d" % (res.distinct, len(recs)))
+    ck.count("options_flow_chains_probed", len(recs))
+    dv = res.tagged("DIV")
+    if dv:
+        ck.count("options_flow_divergences", len(dv))
+        byid = {r["id"]: r for r in recs}
+        for t in dv[:5]:
+            r = byid[t[1]]
+            ck.note("divergence (beyond the property): OptionsFlow predicts other governing options for classes %s under runtime %s; observed %s" % (r["cls"], r["runtime"], r["obs"]))
+
+
 def main():
     ck = Check("C12")
     thorough = ck.tier == "thorough"
@@ -239,6 +322,7 @@ def main():
             c["id"] = "c12-%d" % n
             records.append(c)
     records += model_stage(ck, tg)
+    options_flow(ck)
     byid = {c["id"]: c for c in records}
     r = tlc.judge("Trace_Convert", "Trace_Convert.cfg", records, workers=8)
     ck.mc(r, "Trace")
